@@ -608,5 +608,5 @@ def run_io(c, n):
         if mo in ("bad-op", "bad-json"):
             c.disagree("model driver rejected an IO-derived case (%s)" % what, case, mo, None)
         elif mo["outs"] != real:
-            c.disagree("%s: file columns read through alias names (model AliasDict vs problem)" % what, case,
+            c.disagree("%s: file columns read through alias names (Lean reader model vs problem)" % what, case,
                        mo["outs"], real)
